@@ -21,7 +21,7 @@ ASSUMPTIONS = ["a NESTED-BUNDLE element pointer handed to rtosc_bundle is follow
                "C02_fixed_capacity is the capacity-generic theorem read at a fixed capacity; the callers themselves are tied "
                "only by the correspondence streams rt and tl (they must forward exactly what the model of the constructor "
                "yields for that capacity, or nothing)",
-               "addresses do not start with '#' (not_bundle_addr); total encoded size < 2^32 and blob lengths < 2^31 "
+               "the address is not the exact string #bundle (not_bundle_addr); total encoded size < 2^32 and blob lengths < 2^31 "
                "(the code's unsigned / int32 arithmetic is modelled without wrap-around in the encoder)"]
 TECHNIQUE = ("Coq proof about a write-chunk model of rtosc_amessage / rtosc_bundle with explicit capacity (out-of-bounds writes "
              "representable) + differential correspondence for every capacity 0..needed+8 under ASan")
